@@ -1146,6 +1146,42 @@ func checkF8(c *fw.Ctx) {
 					}
 				}
 				construct := fw.FuncName(fn) + ": *StateKey() is dereferenced only after a nil test"
+				// the dereference sits in a function literal and the event is a variable of the
+				// enclosing unexported function (its parameter): the guard may sit at every call
+				// site of that function; where this cannot be followed nothing is concluded
+				if guarded == "" && fn.Parent() != nil && strings.HasPrefix(ev, "*free:") || guarded == "" && fn.Parent() != nil && strings.HasPrefix(ev, "free:") {
+					outer := fn.Parent()
+					for outer.Parent() != nil {
+						outer = outer.Parent()
+					}
+					name := strings.TrimPrefix(strings.TrimPrefix(ev, "*"), "free:")
+					idx := -1
+					for i, p := range outer.Params {
+						if p.Name() == name {
+							idx = i
+						}
+					}
+					sites, okAll := 0, idx >= 0 && outer.Object() != nil && !outer.Object().Exported()
+					if okAll {
+						for _, caller := range c.P.SrcFuncs() {
+							for _, cs := range fw.Calls(caller) {
+								if cs.Common().StaticCallee() != outer || idx >= len(cs.Common().Args) {
+									continue
+								}
+								sites++
+								if stateKeyGuard(cs.Block(), fw.Sig(cs.Common().Args[idx])) == "" {
+									okAll = false
+								}
+							}
+						}
+					}
+					if okAll && sites > 0 {
+						guarded = fmt.Sprintf("guarded at all %d call sites of the enclosing %s", sites, fw.FuncName(outer))
+					} else {
+						c.Undecided(rule, construct, "the dereference sits in a function literal of "+fw.FuncName(outer)+"; the guards under which that literal runs were not followed")
+						continue
+					}
+				}
 				if guarded == "" {
 					if h := unknownGuardOn(b, ev); h != "" {
 						c.Undecided(rule, construct, "the dereference is dominated by a test through the repository helper "+h+" applied to the event: the rule does not know whether it implies a state key")
